@@ -981,7 +981,11 @@ def generate_request_object(
     ]
 
     # Don't add required fields if they're also marked as oneof
-    required_fields = [field for field in message.required_fields if not field.oneof]
+    required_fields = [
+        field
+        for field in message.required_fields
+        if not field.oneof or field.proto3_optional
+    ]
     request_fields = selected_oneofs + required_fields
 
     for field in request_fields:
